@@ -277,7 +277,7 @@ var testCode = map[string]int{"eq": 0, "eql": 1, "equal": 2, "equalp": 3}
 
 func simpleNode(n *node) bool {
 	switch n.k {
-	case kNil, kTru, kFix, kChr, kStr, kSym, kVec:
+	case kNil, kTru, kFix, kChr, kStr, kSym, kVec, kLst:
 		return true
 	}
 	return false
@@ -285,7 +285,9 @@ func simpleNode(n *node) bool {
 
 // simpleAtom: a key of the kinds on which the table is expected to be a finite map under eql
 func (g *gen) simpleAtom() *node {
-	switch g.rng.Intn(12) {
+	switch g.rng.Intn(13) {
+	case 12: // a list: the table refuses it with a type-error (formerly a host fault, C16-hash-list-key-faults)
+		return common.Pick(g.rng, []*node{nLst(nFix(1), nFix(2)), nLst(), nLst(nSym("a")), nLst(nFix(1), nTl(nFix(2))), nLst(nStr("k"), nLst(nFix(5)))})
 	case 0:
 		return &node{k: kNil}
 	case 1:
@@ -494,6 +496,9 @@ func runHt(ctx *common.Ctx, g *gen, n int) {
 func errObs(o common.Outcome) string {
 	if o.Err == "go-panic" || common.Fault(o.Msg) {
 		return "OFault"
+	}
+	if o.Err == "type-error" {
+		return "OTypeErr" // HashTable.Key refuses a key Go cannot hash (repair C16-4)
 	}
 	return "OBadKey" // any other failure: never what the model says
 }
